@@ -61,15 +61,6 @@ def F.simplePreds : F α → Bool
   | .tb1 _ _ _ φ => φ.simplePreds
   | .tb2 _ _ _ φ ψ => φ.simplePreds && ψ.simplePreds
 
-/-- Truth of a comparison between two values. -/
-def Cmp.holds : Cmp → α → α → Bool
-  | .lt, l, r => Val.lt l r
-  | .le, l, r => !Val.lt r l
-  | .gt, l, r => Val.lt r l
-  | .ge, l, r => !Val.lt l r
-  | .eq, l, r => !Val.lt l r && !Val.lt r l
-  | .ne, l, r => Val.lt l r || Val.lt r l
-
 def anyOver (lo hi : Nat) (p : Nat → Bool) : Bool := (List.range' lo (hi - lo)).any p
 def allOver (lo hi : Nat) (p : Nat → Bool) : Bool := (List.range' lo (hi - lo)).all p
 
